@@ -29,7 +29,9 @@ PF(perf, ch, f) == [e |-> "PFrame", perf |-> perf, ch |-> ch, f |-> f]
 LinkFlow(h) == [e |-> "PFrame", perf |-> "flow", ch |-> 3, ech |-> 0, f |-> [nii |-> [seen |-> 0], iw |-> 100, noi |-> 0, ow |-> 100, h |-> h, dc |-> [seen |-> 0], lc |-> 50]]
 \* step i: <<application event, peer's answer>>
 Step(i) ==
-  CASE i = 1 -> << <<[e |-> (IF Side = "client" THEN "AOpen" ELSE "AAccept"), cfg |-> [mfs |-> 4096]], [e |-> "PHeader", kind |-> "amqp"]>>, <<PF("open", 0, [mfs |-> 4096, chmax |-> 10])>> >>
+  \* (burst scripts run over a 300-byte transport pipe: the connection engine blocks in its first write with the rest of the burst
+  \*  queued behind it, so that the peer's close and queued frames are ready at the same time)
+  CASE i = 1 -> << <<[e |-> (IF Side = "client" THEN "AOpen" ELSE "AAccept"), cfg |-> [mfs |-> 4096, pipe |-> IF Only = "burst" \/ z.p \in Bursts THEN 300 ELSE 4194304]], [e |-> "PHeader", kind |-> "amqp"]>>, <<PF("open", 0, [mfs |-> 4096, chmax |-> 10])>> >>
     [] i = 2 -> IF Side = "client" THEN << <<[e |-> "ABegin", s |-> "s1", cfg |-> [noi |-> 1000, iw |-> 100, ow |-> 100]]>>, <<PF("begin", 3, [rch |-> [ref |-> "s1"], noi |-> 0, iw |-> 100, ow |-> 100])>> >>
                 ELSE << <<[e |-> "AAcceptSession", s |-> "s1", cfg |-> [noi |-> 1000, iw |-> 100, ow |-> 100]]>>, <<PF("begin", 3, [rch |-> -1, noi |-> 0, iw |-> 100, ow |-> 100])>> >>
     [] i = 3 -> IF Side = "client" THEN << <<[e |-> "AAttachS", l |-> "L1", s |-> "s1", cfg |-> [snd |-> 2, rcv |-> 0, idc |-> 0, mms |-> 200]]>>, <<PF("attach", 3, [name |-> "L1", h |-> 5, role |-> "r", snd |-> 2, rcv |-> 0]), LinkFlow(5)>> >>
